@@ -138,6 +138,54 @@ def targets(dims, isrec, xsz, quick):
     return full, inner, out
 
 
+def gen_pairs(nps):
+    """two contiguous nonblocking requests completed by one wait whose file offsets differ by the length of the first plus a
+    multiple of 2^31 / 2^32 (the merge of adjacent requests must compare 64-bit distances), writes and reads"""
+    cases = []
+    for (name, fmt, xt, nelems) in [('f5-byte', 5, D.NC_BYTE, 3 * G32 + 64), ('f5-int', 5, D.NC_INT, G32 + 64), ('f5-short', 5, D.NC_SHORT, G32 + G31 + 64)]:
+        xsz = D.XT_SIZE[xt]; mem = D.XT_MEM[xt]
+        for np in nps:
+            for L in (2, 5):
+                for mult, unit in ((1, G32), (2, G32), (1, G31), (3, G31)):
+                    gap = mult * unit
+                    if gap % xsz: continue
+                    second = 8 + L + gap // xsz
+                    if second + L > nelems: continue
+                    for kind in ('iput', 'bput'):
+                        c = Case('PAIR-%s-np%d-L%d-%dx%s-%s' % (name, np, L, mult, 'G32' if unit == G32 else 'G31', kind), np)
+                        c.op('*', 'create', f=0, path='a.nc', fmt=fmt, hints=TIGHT)
+                        c.op('*', 'def_dim', f=0, name='d', len=nelems)
+                        c.op('*', 'def_dim', f=0, name='s', len=4)
+                        c.op('*', 'def_var', f=0, name='big', xtype=D.XT_NAME[xt], dims=[0])
+                        c.op('*', 'def_var', f=0, name='after', xtype='int', dims=[1])
+                        c.op('*', 'enddef', f=0)
+                        if kind == 'bput': c.op('*', 'buffer_attach', f=0, size=1024)
+                        v1 = [(3 * j) % 50 + 1 for j in range(L)]; v2 = [(5 * j) % 50 + 60 for j in range(L)]
+                        r0 = np - 1
+                        ctx = dict(L=L, first=8, second=second, v1=v1, v2=v2, rank=r0, lines=[])
+                        for rr in range(np):
+                            if rr == r0:
+                                ctx['lines'].append(c.op(rr, 'put', f=0, form='vara', v=0, s=[8], c=[L], mem=mem, vals=v1, nb=kind[0], req=0))
+                                ctx['lines'].append(c.op(rr, 'put', f=0, form='vara', v=0, s=[second], c=[L], mem=mem, vals=v2, nb=kind[0], req=1))
+                                ctx['lines'].append(c.op(rr, 'wait', f=0, ids=['q0', 'q1'], all=1))
+                            else: c.op(rr, 'wait', f=0, all=1, num=0)
+                        c.op('*', 'sync', f=0)
+                        # read back: both blocks with blocking reads, the elements right behind the first block, then both with one iget pair
+                        ctx['g1'] = c.op('*', 'get', f=0, form='vara', v=0, s=[8], c=[L], coll=1, mem=mem)
+                        ctx['g2'] = c.op('*', 'get', f=0, form='vara', v=0, s=[second], c=[L], coll=1, mem=mem)
+                        ctx['gmid'] = c.op('*', 'get', f=0, form='vara', v=0, s=[8 + L], c=[L], coll=1, mem=mem)
+                        for rr in range(np):
+                            c.op(rr, 'get', f=0, form='vara', v=0, s=[8], c=[L], mem=mem, nb='i', req=2)
+                            c.op(rr, 'get', f=0, form='vara', v=0, s=[second], c=[L], mem=mem, nb='i', req=3)
+                            c.op(rr, 'wait', f=0, ids=['q2', 'q3'], all=1)
+                        ctx['r1'] = c.op('*', 'rbuf', req=2); ctx['r2'] = c.op('*', 'rbuf', req=3)
+                        if kind == 'bput': c.op('*', 'buffer_detach', f=0)
+                        c.op('*', 'close', f=0)
+                        c.op(0, 'unlink', path='a.nc')
+                        cases.append((c, ctx))
+    return cases
+
+
 def gen_access(quick, nps):
     cases = []
     for (name, fmt, xt, dims, isrec) in BIGVARS:
@@ -216,7 +264,26 @@ def main(tier=None):
     dcases = gen_define((1, 2, 5), 3, not thorough)
     dims = gen_dimlen((1, 2, 5))
     acc = gen_access(not thorough, (1, 2) if thorough else (1,))
+    pairs = gen_pairs((1, 2) if thorough else (1,))
     res = runner.run_cases(b['vx'], [x[0] for x in dcases] + [x[0] for x in dims] + [x[0] for x in acc], batch=40, timeout=900)
+    pres = runner.run_cases(b['vx'], [x[0] for x in pairs], batch=8, timeout=900)
+    for (c, x), r in zip(pairs, pres):
+        ck.cov['evaluations'] += 1
+        if r.status != 'ok': ck.violation((r.status, 'request pair', first_frame(r.detail)), c.text(), c.name + ': ' + r.detail[:500]); continue
+        bad = None
+        for ln in x['lines']:
+            o = r.r(x['rank'], ln)
+            if o is not None and (o.rc != 0 or any(v != 0 for v in (o.ints('st') or []))): bad = 'posting / wait returned %d %s' % (o.rc, o.ints('st'))
+        for k in r.ranks:
+            if bad: break
+            for ln, want, what in ((x['g1'], x['v1'], 'first block'), (x['g2'], x['v2'], 'second block'), (x['gmid'], [0] * x['L'], 'elements right behind the first block (never written)'),
+                                   (x['r1'], x['v1'], 'first block through an iget pair'), (x['r2'], x['v2'], 'second block through an iget pair')):
+                o = r.r(k, ln)
+                if o is None or o.rc != 0 or o.vals() != want:
+                    bad = 'rank %d reads %s as %s (rc=%s), expected %s' % (k, what, o.vals() if o is not None else None, o.rc if o is not None else None, want); break
+        if bad: ck.violation(('value', 'request pair', 'offsets 2^31/2^32 multiples apart'), c.text(), '%s: blocks at elements %d and %d: %s' % (c.name, x['first'], x['second'], bad))
+        ck.outcomes.add(('pair', c.name))
+    ck.cov['request_pairs'] = len(pairs)
     for (c, lines, le, fmt, vv), r in zip(dcases, res):
         ck.cov['evaluations'] += 1
         if r.status != 'ok': ck.violation((r.status, 'enddef', first_frame(r.detail)), c.text(), c.name + ': ' + r.detail[:400]); continue
@@ -255,7 +322,7 @@ def main(tier=None):
     ck.cov['distinct_nontrivial'] = len(ck.outcomes)
     ck.cov['rule'] = ('(1) format x 1-3 variables x fixed/record in every order x per-variable byte size just below/at/above 2^31-4, 2^31, 2^32-4, 2^32 (and 2^63-4 for CDF-5; several factorisations) plus sizes that push the next begin over 2 GiB; '
                       'expected NC_NOERR/NC_EVARSIZE from the rule table of the property; dimension lengths around every limit. (2) for 7 large variables (fixed/record, 1-D and 2-D with one dimension > 2^31-1, CDF-1/2/5) elements whose byte offset or '
-                      'linear index lies just below/across/above 2^31 and 2^32 are written (blocking, nonblocking, strided with displacement > 32 bits) on sparse files and read back in the same session and after reopen')
+                      'linear index lies just below/across/above 2^31 and 2^32 are written (blocking, nonblocking, strided with displacement > 32 bits) on sparse files and read back in the same session and after reopen; pairs of contiguous nonblocking requests (iput, bput, iget) completed by one wait whose offsets differ by the length of the first plus 1-3 x 2^31 / 2^32')
     ck.sample(dcases[0][0].text()[:800]); ck.sample(acc[0][0].text()[:1500])
     ck.assumptions += ['CDF-5 definitions whose later variables would start beyond 2^63 are not generated', 'sparse files on tmpfs; nothing of the huge extents is ever materialised']
     runner.cleanup()
